@@ -381,6 +381,19 @@ def main(chk):
   with mp.Pool(14, maxtasksperchild=8) as pool:
     outs = pool.map(explore_job, jobs, chunksize=1)
     routs = pool.map(random_job, rjobs, chunksize=1)
+  # "the phase body running at that moment is asked to terminate": the abort's kill of a phase thread must not
+  # be lost, whatever the thread was doing when it arrived - the run/kill handshake of KillableThread (the DFS of
+  # the C12 check, judged here on the lost-kill rule only)
+  from checks import c12
+  with mp.Pool(2) as pool2:
+    for (order, bnd), (n, bad) in zip([('concurrent', 3)], pool2.map(c12.kill_explore_judged, [('concurrent', 3)])):
+      chk.traces += n
+      chk.nontrivial += n
+      chk.tlc_runs.append(dict(name='dfs run/kill handshake (bound %d)' % bnd, schedules=n))
+      for sig, det in bad:
+        if 'kill lost' in sig:
+          chk.violation('the kill of a phase thread that had not yet entered its body is lost: the body runs although the '
+                        'abort asked it to terminate', det)
   total = 0
   kinds = {}
   for o in outs + routs:
